@@ -78,6 +78,11 @@ def main():
                 "demo.py on the patched worktree",
             ],
         })
+        needs_path = os.path.join(VERIF, "seeded", "needs.json")
+        if os.path.exists(needs_path):
+            needs = json.load(open(needs_path))
+            if a.name in needs:
+                meta["needs_to_manifest"] = needs[a.name]
         notes = os.path.join(src, "notes.md")
         if os.path.exists(notes) and "needs_to_manifest" not in meta:
             meta["notes_file"] = "notes.md"
